@@ -21,6 +21,10 @@
 #include <ascon/kdf.h>
 #include <ascon/pbkdf2.h>
 #include <ascon/random.h>
+#include <ascon/masking.h>
+#include <ascon/permutation.h>
+#include <ascon/storage.h>
+#include <ascon/utility.h>
 #include <pthread.h>
 #include <semaphore.h>
 #include <dlfcn.h>
@@ -260,6 +264,8 @@ struct Shared {               // created by the main thread before the workers s
     ascon_masked_key_160_t mk160;
     uint8_t key[20], nonce[16], ad[64], msg[256];
     uint8_t saved128a[ASCON_ISAP_SAVED_KEY_SIZE];
+    ascon_xof_state_t xsrc;    // a partly absorbed XOF state and hash state that every thread may copy from
+    ascon_hasha_state_t hsrc;
 };
 
 struct ThreadCtx {
@@ -281,10 +287,11 @@ struct ThreadCtx {
 // decryption (which receive the same shared const keys) run concurrently too
 #define TAMPER() do { if (tamper && clen) T.out[(sd >> 8) % clen] ^= (uint8_t)(1u << (sd & 7)); } while (0)
 
-static const int NOPK = 22;
+static const int NOPK = 25;
 static const char *opk_name[NOPK] = {"hash", "hasha", "xof", "aead128", "aead128a", "aead80pq", "inc128", "siv128", "siv80pq", "isap128_shared",
                                      "isap128a_shared", "isap80pq_shared", "masked128_shared", "masked80pq_shared", "prf_hmac", "kmac_hkdf", "random", "prng",
-                                     "cpp_aead", "cpp_isap_saved_key", "cpp_hash_xof", "cpp_siv_masked"};
+                                     "cpp_aead", "cpp_isap_saved_key", "cpp_hash_xof", "cpp_siv_masked",
+                                     "masked_key_toolkit", "copy_from_shared_reinit_hex_state", "prng_reseed_save_load"};
 
 // the ISAP classes take (key, len), the others take (key)
 template <class E> static auto make_keyed(const uint8_t *k, size_t klen) -> decltype(E(k, klen)) { return E(k, klen); }
@@ -316,6 +323,11 @@ static void cpp_pair(ThreadCtx &T, const uint8_t *k, size_t klen, const uint8_t 
     e.clear();
 }
 
+// per-thread non-volatile storage for ascon_random_save_seed / load_seed (32 bytes inside the thread's own tmp area)
+struct ThrStore { ascon_storage_t st; uint8_t *mem; };
+static int thr_store_read(const ascon_storage_t *s, size_t off, unsigned char *d, size_t n) { memcpy(d, ((const ThrStore *)s)->mem + off, n); return (int)n; }
+static int thr_store_write(const ascon_storage_t *s, size_t off, const unsigned char *d, size_t n, int) { memcpy(((const ThrStore *)s)->mem + off, d, n); return (int)n; }
+
 static uint64_t run_op(ThreadCtx &T, const Op &op)
 {
     int kind = (int)(op.u(0) % NOPK);
@@ -327,8 +339,8 @@ static uint64_t run_op(ThreadCtx &T, const Op &op)
     unsigned v = (unsigned)(sd >> 11); // variant selector
     // private inputs
     alignas(64) static __thread uint8_t msg[256], ad[64];
-    fill_bytes(msg, mlen, sd ^ 1);
-    fill_bytes(ad, adlen, sd ^ 2);
+    fill_bytes(msg, sizeof msg, sd ^ 1); // whole buffers: some operations read a fixed number of bytes whatever mlen is
+    fill_bytes(ad, sizeof ad, sd ^ 2);
     fill_bytes(T.key, 20, sd ^ 3);
     fill_bytes(T.nonce, 16, sd ^ 4);
     const uint8_t *m = use_shared_const ? S.msg : msg, *a = use_shared_const ? S.ad : ad;
@@ -427,6 +439,33 @@ static uint64_t run_op(ThreadCtx &T, const Op &op)
         --t_in_lib;
         clen = 224;
         break; }
+    case 22: { // masked key toolkit on a private key, and read-only extraction from the shared masked keys
+        ascon_masked_key_128_t k1;
+        ascon_masked_key_160_t k2;
+        LIB(ascon_masked_key_128_init(&k1, k); ascon_masked_key_128_randomize(&k1); ascon_masked_key_128_extract(&k1, T.out); ascon_masked_key_128_free(&k1);
+            ascon_masked_key_160_init(&k2, k); ascon_masked_key_160_randomize(&k2); ascon_masked_key_160_extract(&k2, T.out + 16); ascon_masked_key_160_free(&k2);
+            ascon_masked_key_128_extract(&S.mk128, T.out + 40); ascon_masked_key_160_extract(&S.mk160, T.out + 56));
+        clen = 76; break; }
+    case 23: { // copies taken from shared constant states, re-initialisation variants, the hex codec, the bare permutation state
+        ascon_xof_state_t x;
+        ascon_hasha_state_t h;
+        ascon_state_t st;
+        LIB(ascon_xof_copy(&x, &S.xsrc); ascon_xof_absorb(&x, m, mlen); ascon_xof_squeeze(&x, T.out, 24);
+            ascon_xof_reinit_custom(&x, "thr2", a, adlen % 9, 0); ascon_xof_absorb(&x, m, mlen); ascon_xof_squeeze(&x, T.out + 24, 16);
+            ascon_xof_reinit_fixed(&x, 24 + (v & 7)); ascon_xof_squeeze(&x, T.out + 40, 8); ascon_xof_reinit(&x); ascon_xof_squeeze(&x, T.out + 48, 8); ascon_xof_free(&x);
+            ascon_hasha_copy(&h, &S.hsrc); ascon_hasha_update(&h, m, mlen); ascon_hasha_finalize(&h, T.out + 56); ascon_hasha_free(&h);
+            r = ascon_bytes_to_hex((char *)T.out + 96, 2 * 40 + 1, m, 40, (int)(v & 1)); r += ascon_bytes_from_hex(T.out + 200, 40, (const char *)T.out + 96, 80);
+            ascon_init(&st); ascon_add_bytes(&st, m, (unsigned)(v % 9), 24); ascon_permute(&st, (uint8_t)(v % 12)); ascon_overwrite_with_zeroes(&st, 8, 8);
+            ascon_extract_and_overwrite_bytes(&st, m + 40, T.out + 240, 3, 21); ascon_extract_bytes(&st, T.out + 264, 0, 40); ascon_free(&st));
+        clen = 304; break; }
+    case 24: { // a private generator through its whole interface, with private non-volatile storage
+        ThrStore fs;
+        memset(&fs.st, 0, sizeof fs.st);
+        fs.st.size = 64; fs.st.page_size = 1; fs.st.erase_size = 0; fs.st.read = thr_store_read; fs.st.write = thr_store_write;
+        fs.mem = T.tmp + 640;
+        LIB(ascon_random_init(&T.prng); ascon_random_fetch(&T.prng, T.out, 16); r = ascon_random_reseed(&T.prng); ascon_random_feed(&T.prng, m, mlen % 40);
+            r += ascon_random_save_seed(&T.prng, &fs.st); r += ascon_random_load_seed(&T.prng, &fs.st); ascon_random_fetch(&T.prng, T.out + 16, 40); ascon_random_free(&T.prng));
+        clen = 56; break; }
     default: { // masked classes
         ++t_in_lib;
         switch (v % 3) {
@@ -529,6 +568,10 @@ struct ThreadsWorld : World {
         ascon128a_isap_aead_save_key(&sh->ik128a, sh->saved128a);
         ascon_masked_key_128_init(&sh->mk128, sh->key);
         ascon_masked_key_160_init(&sh->mk160, sh->key);
+        ascon_xof_init(&sh->xsrc);
+        ascon_xof_absorb(&sh->xsrc, sh->msg, 13);
+        ascon_hasha_init(&sh->hsrc);
+        ascon_hasha_update(&sh->hsrc, sh->msg, 21);
         std::vector<ThreadCtx *> T;
         for (int t = 0; t < nt; ++t) {
             ThreadCtx *c = (ThreadCtx *)aalloc(64, (sizeof(ThreadCtx) + 63) & ~(size_t)63);
@@ -593,6 +636,8 @@ struct ThreadsWorld : World {
         ascon80pq_isap_aead_free(&sh->ik80);
         ascon_masked_key_128_free(&sh->mk128);
         ascon_masked_key_160_free(&sh->mk160);
+        ascon_xof_free(&sh->xsrc);
+        ascon_hasha_free(&sh->hsrc);
         for (auto *c : T) { c->~ThreadCtx(); free(c); }
         free(sh);
         for (int t = 0; t <= MAXT; ++t) sem_destroy(&g->sem[t]);
